@@ -306,7 +306,7 @@ func c15PrioRun(c *mc.Ctx) {
 	}
 	for _, cfg := range cfgs {
 		cfg := cfg
-		b := &mc.BFS{C: c, Name: "priomc[" + cfg.name + "]", MaxDepth: depth,
+		b := &mc.BFS{C: c, Name: "priomc[" + cfg.name + "]", MaxDepth: depth, EveryTransition: true,
 			Init:    func() mc.Instance { return newC15Prio(cfg) },
 			Enabled: func(x mc.Instance, d int) []string { return ops },
 			Apply: func(x mc.Instance, op string, path []string) (bool, bool) {
